@@ -30,6 +30,16 @@ SCENARIOS = {
                         {'reconnection': False}),
     'emit-reconnect': (['loss'], [('emit',), ('receive', 5)],
                        {'reconnection': True, 'after_reconnect': ['e1']}),
+    # an event is buffered, the connection is lost and comes back, the
+    # server sends another event: both must be returned, in order
+    'buffer-across-reconnect': (['e1', 'loss'],
+                                [('receive', 5), ('receive', 5)],
+                                {'reconnection': True,
+                                 'after_reconnect': ['e2']}),
+    # receive() is waiting out a reconnection; the server greets the client
+    # right behind its CONNECT answer
+    'receive-reconnect': (['loss'], [('receive', 5)],
+                          {'reconnection': True, 'greeting': 'e1'}),
     'emit-final': (['loss'], [('emit',), ('wait-final',), ('call',),
                               ('emit',)],
                    {'reconnection': True, 'reconnect_fails': True}),
@@ -62,6 +72,7 @@ def scenario_for(name):
         w.task_factory = task_factory
         nconn = [0]
         back_ref = [None]
+        deliver_ref = [None]
 
         def send_hook(pkt):
             # the server accepts every namespace CONNECT; after set-up its
@@ -75,6 +86,8 @@ def scenario_for(name):
                     if w.eio.state != 'connected':
                         return
                     sc.client._handle_eio_message('0{"sid":"S%d"}' % n)
+                    if n >= 2 and opts.get('greeting'):
+                        deliver_ref[0](opts['greeting'])
                     if n >= 2:
                         back_ref[0].set()
                 if inline[0]:
@@ -109,12 +122,15 @@ def scenario_for(name):
             if thread.name == 'consumer':
                 pending = st['completed'] - len(st['returned'])
                 st['timeouts_bad'].append(pending)
+                st['last_timeout_pending'] = pending
         sched.on_timeout = on_timeout
 
         def deliver(ev):
             st['arrived'].append(ev)
             sc.client._handle_eio_message('2["%s",1]' % ev)
             st['completed'] += 1
+
+        deliver_ref[0] = deliver
 
         def producer():
             for step in producer_script:
@@ -161,7 +177,8 @@ def scenario_for(name):
                                           len(sc.input_buffer),
                                           st['final'],
                                           st['completed'] -
-                                          len(st['returned'])))
+                                          len(st['returned']),
+                                          st.get('last_timeout_pending', 0)))
         sched.spawn(consumer, name='consumer')
         sched.spawn(producer, name='producer')
         if opts.get('after_reconnect'):
@@ -211,9 +228,9 @@ def judge(name, out):
             continue
         kind, buffered, final, pending = r[1], r[2], r[3], r[4]
         if kind == 'TimeoutError':
-            bad = out['timeouts_bad'][ti] if ti < len(out['timeouts_bad']) \
-                else 0
-            ti += 1
+            # events that had fully arrived when the wait that produced
+            # this TimeoutError expired
+            bad = r[5] if len(r) > 5 else 0
             if bad > 0:
                 v.append(('C19/timeout-with-event', f'{name}: receive() '
                           f'timed out although {bad} event(s) had fully '
